@@ -346,6 +346,14 @@ def post_bin(args, kw, res, exc, snap):
     # the interval of bin i, per the class doc: left edge of bin 0 at origin, index grows in `direction`
     want_lo = b.origin + res * b.sz * b.direction
     ok = isinstance(res, int) and lo - eps <= x < hi + eps and abs(lo - want_lo) <= eps and abs((hi - lo) - b.sz) <= eps
+    exact = all(float(v).is_integer() and abs(v) < 2**40 for v in (b.sz, b.origin, x))
+    if ok and exact:
+        # whole-number size, origin and point: every quantity involved is exact in floating point, so there is no round-off to forgive - a point on a bin's closed
+        # left edge belongs to that bin, not to its neighbour
+        ok = lo <= x < hi
+        if not ok:
+            return _mon.fail("Bin1D.bin", {"sz": b.sz, "origin": b.origin, "dir": b.direction, "x": x, "idx": res, "interval": [lo, hi], "why": "exact edge assigned to the neighbouring bin"}, key="bin-contract", cls=f"dir{b.direction:+d}|exact")
+        _mon.ok("Bin1D.bin", cls=f"dir{b.direction:+d}|exact")
     _mon.check(ok, "Bin1D.bin", {"sz": b.sz, "origin": b.origin, "dir": b.direction, "x": x, "idx": res, "interval": [lo, hi]},
                key="bin-contract", cls=f"dir{b.direction:+d}", sig=hsig("bin", b.sz, b.origin, b.direction, x),
                sample={"sz": b.sz, "origin": b.origin, "dir": b.direction, "x": x, "idx": res})
@@ -591,6 +599,11 @@ def drive_axis_bins(mon: Monitor, rng: random.Random, n: int) -> None:
         b = M.Bin1D(sz, org, d)
         for x in (rng.uniform(-1e7, 1e7), org, org + sz * rng.randint(-20, 20), org + sz * (rng.randint(-20, 20) + 0.5), org - 1e-9):
             b.bin(x)
+        # whole-number grids (tile sizes in metres): every bin edge within +-12 bins of the origin, exactly
+        szi = rng.choice([100000, 50000, 49, 3, 7, 10, 30, 60, 1000, 96000, 3600, 2560, 25])
+        bi = M.Bin1D(szi, rng.choice([0, 0, -3 * szi, 7, 2000000, -1500000]), d)
+        for kk_ in range(-12, 13):
+            bi.bin(float(bi.origin + kk_ * szi) if rng.random() < 0.5 else bi.origin + kk_ * szi)
         j = rng.randint(-50, 50)
         b2 = M.Bin1D.from_sample_bin(j, b[j], d)
         for kk in (j, j + 1, j - 7, 0):
